@@ -24,10 +24,27 @@ pub struct Ctx {
 impl Ctx {
     /// Scale a count by tier.
     pub fn n(&self, quick: usize, thorough: usize) -> usize {
-        if self.thorough {
-            thorough
+        let n = if self.thorough { thorough } else { quick };
+        // the dependency suite runs at a third of the volume (its exhaustive parts are unaffected)
+        if self.rep.dep_mode && n > 6 {
+            n / 3
         } else {
-            quick
+            n
         }
+    }
+
+    /// The direct crate-vs-model comparisons of every modelled function the validation path uses (path and
+    /// query canonicalisation, header values, content type / UTF-8 / labels, timestamps, the freshness and scope
+    /// rule, the query-carrier decoder, the byte-level helpers), run on behalf of a property whose theorems are
+    /// about the validation as a whole: a change in any of them breaks the correspondence those theorems need.
+    pub fn dependency_suite(&mut self) {
+        self.rep.dep_mode = true;
+        props_direct::c09_direct(self);
+        props_direct::c10_direct(self);
+        props_validate2::c11_direct(self);
+        props_validate2::c12_pieces(self);
+        props_direct::c16(self);
+        props_validate::c03_prevalidate_sweep(self);
+        self.rep.dep_mode = false;
     }
 }
